@@ -1,5 +1,5 @@
 -- GENERATED from /repo by /verif/extract/extract.py on every run. Do not edit.
 import RjModel.Model.Shutdown
 namespace Rj.Generated
-def shutdownFeatures : ShutFeatures := ⟨true, true, false⟩
+def shutdownFeatures : ShutFeatures := ⟨true, true, true⟩
 end Rj.Generated
